@@ -12,7 +12,6 @@ package main
 import (
 	"fmt"
 	"os"
-	"runtime/pprof"
 	"strings"
 	"time"
 
@@ -91,12 +90,12 @@ type tNode struct {
 // exploreTrie: BFS to the given depth.  refCache: executions that do not
 // discover a new state compare the in-tree root with the root the reference
 // trie produced when the same content was first reached, instead of driving the
-// reference trie through the same history again (quick tier only).
+// reference trie through the same history again.
 func (c *ctx) exploreTrie(d *trieDriver, depth int, refCache bool) partStats {
 	st := partStats{Alphabet: len(d.alpha)}
 	visited := map[uint32]bool{}
 	upRoot := map[uint32]*[32]byte{} // content -> reference root
-	rootOf := map[uint32][32]byte{} // merge oracle: content -> root of the first history that reached it
+	rootOf := map[uint32][32]byte{}  // merge oracle: content -> root of the first history that reached it
 	rootHist := map[uint32][]tOp{}
 	roots := map[[32]byte]bool{}
 
@@ -247,7 +246,11 @@ func (c *ctx) exploreSDB(start string, prefix []sOp, depth int, sh *sdbShared) p
 			if prev, ok := sh.rootOf[r.ckey]; ok {
 				if prev != r.root {
 					k.OtherSOps = sh.rootHist[r.ckey]
-					c.run.Report(map[string]string{"part": "statedb", "kind": "merge-root-differs", "op": ops[len(ops)-1].Op, "input": r.input}, k,
+					sig := map[string]string{"part": "statedb", "kind": "merge-root-differs", "op": ops[len(ops)-1].Op, "input": r.input}
+					if r.input != "plain" {
+						sig = map[string]string{"part": "statedb", "input": r.input}
+					}
+					c.run.Report(sig, k,
 						fmt.Sprintf("[statedb] histories %q and %q end in the same content but have roots %x and %x", sHistString(sh.rootHist[r.ckey]), sHistString(ops), prev[:6], r.root[:6]))
 				}
 			} else if r.input == "plain" {
@@ -394,11 +397,6 @@ func main() {
 	}
 
 	selfCheck([]*trieDriver{newTrieDriver("trie", false, true), newTrieDriver("securetrie", false, true)})
-	if pf := os.Getenv("VERIF_CPUPROFILE"); pf != "" {
-		f, _ := os.Create(pf)
-		pprof.StartCPUProfile(f)
-		defer pprof.StopCPUProfile()
-	}
 
 	// quick: coarse residency classes, reference root cached per content;
 	// thorough: the stated bound (depth 7) under the coarse classes (reference
@@ -452,7 +450,6 @@ func main() {
 		bounds[tr.name+"_depth"] = tr.depth
 		bounds[tr.part+"_keys"] = len(d.keys)
 	}
-	pprof.StopCPUProfile()
 	sh := &sdbShared{rootOf: map[string][32]byte{}, rootHist: map[string][]sOp{}, roots: map[[32]byte]bool{}}
 	stEmpty := c.exploreSDB("empty", nil, sdbDepth, sh)
 	stSeeded := c.exploreSDB("seeded", seedPrefix, sdbDepth, sh)
@@ -473,7 +470,7 @@ func main() {
 	cov["outcome_class_count"] = c.classes.Len()
 	cov["rule"] = "BFS over operation histories; one execution = fresh in-tree instance (+ fresh reference instance), replay of the representative history, one more op, oracle on the op and on the state reached; every (representative history, enabled op) pair is executed; a state is distinct by canonical key. " +
 		"Trie / SecureTrie: alphabet = update(k,v) for 3 value sizes (1/31/33 B), delete(k), [thorough: update(k,empty)], get(k), prove(k) for every key, hash, commit, commit+reopen in 3 variants (same node database; after Database.Commit to the disk db; brand-new Database on the disk db); 8 keys for the plain trie (shared nibble prefixes 0,1,3,4,63; a three-way branch with hashed children; strict nibble-prefix keys incl. the empty key; two 32-byte keys differing in the last nibble), 6 32-byte keys for the secure trie (keccak images sharing 0,1,2,3 nibbles, three-way root branch); canonical key = content map + residency class (coarse: never committed|committed|reopened × clean|dirty; fine: never committed|committed|reopened×3 variants × clean|dirty|hashed). Light oracle on every execution: every Get = content, root = reference root = root of a fresh in-tree trie built by sorted insertion, merge oracle (equal content ⇒ equal root); full oracle on every execution that discovers a state: additionally Prove→VerifyProof (in-tree and reference verifier) for every key incl. absent ones, leaf iteration = content, root unchanged by reads; " + refRule + ". " +
-		"StateDB: 2 addresses, alphabet = AddBalance(0|5), SubBalance(5) if affordable, SetNonce, SetCode, SetState(2 slots × {0,7}), Suicide, CreateAccount per address, AddLog, AddRefund, Snapshot, RevertToSnapshot(every live snapshot), IntermediateRoot(true), Commit(true)+state.New in 2 variants (same state.Database; TrieDB().Commit + brand-new state.Database on the disk db), from two start states (empty; seeded = contract with committed storage + funded account, built through the API); canonical key = all getter-observable state of the current revision and of every live snapshot + whether the instance was finalised in place (IntermediateRoot) since it was opened + whether a live account was re-created in the current transaction; the reference StateDB is driven through the same history on every execution. " +
+		"StateDB: 2 addresses, alphabet = AddBalance(0|5), SubBalance(5) if affordable, SetNonce, SetCode, SetState(2 slots × {0,7}), Suicide, CreateAccount per address, AddLog, AddRefund, Snapshot, RevertToSnapshot(every live snapshot), IntermediateRoot(true), Commit(true)+state.New in 2 variants (same state.Database; TrieDB().Commit + brand-new state.Database on the disk db), from two start states (empty; seeded = contract with committed storage + funded account, built through the API); canonical key = all getter-observable state of the current revision and of every live snapshot + the account content as of the last finalisation + which accounts were addressed in the current transaction (pending in the journal) + whether the instance was finalised in place (IntermediateRoot) since it was opened + whether a live account was re-created in the current transaction; the reference StateDB is driven through the same history on every execution. " +
 		"distinct_nontrivial = number of distinct canonical states reached (an execution that ends in an already known canonical state is a merge and is not counted); outcome_class_count = distinct (part, op, residency class or model effect) classes observed, outcome_classes = their histogram without the residency component."
 	cov["exhaustive"] = true
 	cov["bounds"] = bounds
